@@ -311,7 +311,7 @@ off64_t _GD_LzmaSeek(struct gd_raw_file_* file, off64_t count,
 
   lzd = (struct gd_lzmadata *)file->edata;
 
-  if (mode != GD_FILE_WRITE) {
+  if (!(mode & GD_FILE_WRITE)) {
     /* the easy case -- position is somewhere within our current output buffer
      */
     if (byte_count < lzd->xz.total_out && byte_count >= BASE(*lzd)) {
